@@ -68,13 +68,15 @@ pub struct Mat {
 pub fn materialise(c: &Case) -> Result<Mat, String> {
     let k = c.k;
     let mut pos = Vec::new();
-    let mut p = k + gen::idx(c.lead, k + 1);
+    // the first site may sit at the smallest callable distance from the start (0-based position k-1),
+    // the last one at the smallest callable distance from the end (position len-k)
+    let mut p = k - 1 + gen::idx(c.lead, k + 2);
     for (g, _) in &c.sites {
         pos.push(p);
         p += 2 * k + gen::idx(*g, k + 1);
     }
     let last = *pos.last().unwrap();
-    let len = last + k + 1 + gen::idx(c.tail, 2 * k);
+    let len = last + k + gen::idx(c.tail, 2 * k + 1);
     let mut seen = std::collections::HashSet::new();
     let anc = gen::unique_seq(&c.material, len, k - 1, false, &mut seen).ok_or("no unique extension")?;
     let mut sites = Vec::new();
